@@ -1,6 +1,9 @@
 import JrsVerif.Common.J
 import JrsVerif.Model.Manif
 import JrsVerif.Model.ManifSpec
+import JrsVerif.Model.ManifDoc
+import JrsVerif.Model.ManifTomlR
+import JrsVerif.Model.ManifYaml11
 
 namespace JrsVerif.Drv.C14
 open Lean JrsVerif.J JrsVerif.Manif JrsVerif.ManifSpec JrsVerif.ManifVal
@@ -41,24 +44,92 @@ def fmtOf (s : String) : Option (Fmt × ManifSpec.Format) :=
   | "ini" => some (.ini, .ini)
   | _ => none
 
+/-- an unquoted YAML scalar denotes itself only if the YAML 1.1 resolver leaves it a string and it
+    is syntactically a plain scalar -/
+def bareBack (tok : List Char) : Json :=
+  if ManifYaml11.resolvesToString tok && ManifYaml11.plainSyntaxOk tok then jstr tok else rejected
+
 /-- model token and what the reference reader of that lexical position reads from `tok` -/
 def token (kind : String) (qk : Bool) (s tok : List Char) : Option (List Char × Json) :=
   let quoted := tok.head? == some '"'
   match kind with
   | "toml.key" | "toml.hdr" | "toml.inl" => some (Manif.tomlKey s, back (ManifSpec.tomlKey tok))
   | "toml.str" => some (escToml s, back (tomlBasic tok))
-  | "yaml.key" => some (yamlKey qk s, if quoted then back (yamlDq tok) else jstr tok)
+  | "yaml.key" => some (yamlKey qk s, if quoted then back (yamlDq tok) else bareBack tok)
   | "yaml.str.std" => some (yamlStr true "  ".toList s, if quoted then back (yamlDq tok) else jstr s)
   | "yaml.str.cli" => some (yamlStr false "  ".toList s,
-      if quoted then back (yamlDq tok) else if tok.head? == some '|' then jstr s else jstr tok)
+      if quoted then back (yamlDq tok) else if tok.head? == some '|' then jstr s else bareBack tok)
   | "py.str" => some (pyStr s, back (pyLiteral tok))
   | "xml.std" => some (escXml 0 s, jstr s)
   | "xml.text" => some (escXml 1 s, if s.all xmlChar then back (xmlText tok) else jstr s)
   | "xml.attr" => some (escXml 2 s, if s.all xmlChar then back (xmlAttr tok) else jstr s)
   | _ => none
 
+/-- code point order on keys (= byte order of the UTF-8 text = the order of `obj.iter()`) -/
+def keyLt : List Char → List Char → Bool
+  | [], [] => false
+  | [], _ :: _ => true
+  | _ :: _, [] => false
+  | a :: as, b :: bs => if a.toNat < b.toNat then true else if b.toNat < a.toNat then false else keyLt as bs
+
+def insKV (kv : List Char × Json) : List (List Char × Json) → List (List Char × Json)
+  | [] => [kv]
+  | x :: r => if keyLt x.1 kv.1 then x :: insKV kv r else kv :: x :: r
+
+/-- canonical JSON of a value for comparing data: object members sorted by key -/
+partial def canonJ : V → Json
+  | .null => .null
+  | .bool b => .bool b
+  | .num t => obj [("n", jstr t)]
+  | .str s => jstr s
+  | .func => obj [("f", .bool true)]
+  | .arr xs => Json.arr (xs.map canonJ).toArray
+  | .obj kvs =>
+    let sorted := (kvs.map (fun kv => (kv.1, canonJ kv.2))).foldr insKV []
+    obj [("o", Json.arr (sorted.map (fun kv => Json.arr #[jstr kv.1, kv.2])).toArray)]
+
+def errJ : Json := obj [("err", .bool true)]
+
+/-- whole-document writers: model text, and (TOML) what the reference reader reads from `tok` -/
+def doc (fmt : String) (pad : List Char) (skip nl : Bool) (v : V) (tok? : Option (List Char)) : Option Json :=
+  let m? : Option (Option (List Char) × ManifSpec.Format) :=
+    match fmt with
+    | "toml" => some (ManifDoc.tomlDoc ⟨pad, skip⟩ v, .toml)
+    | "python" => some (ManifDoc.pyValue v, .python)
+    | "pyvars" => some (ManifDoc.pyVars v, .pyvars)
+    | "ini" => some (ManifDoc.iniDoc nl v, .ini)
+    | _ => none
+  match m? with
+  | none => none
+  | some (m, fs) =>
+    let withBack := fmt == "toml"
+    let mj := match m with
+      | some t => if withBack then obj [("out", jstr t), ("back", canonJ v)] else obj [("out", jstr t)]
+      | none => errJ
+    match tok? with
+    | none => some (obj [("model", mj), ("spec", if inDomain fs v then mj else errJ)])
+    | some tok =>
+      let sj :=
+        if !inDomain fs v then errJ
+        else if withBack then
+          obj [("out", jstr tok), ("back", match ManifTomlR.tomlRead tok with
+            | some r => canonJ r
+            | none => rejected)]
+        else obj [("out", jstr tok)]
+      some (obj [("model", mj), ("spec", sj)])
+
 def handle (op : String) (j : Json) : Option Json :=
   match op with
+  | "man.doc" =>
+    match (do
+      let fmt ← str? j "fmt"; let pad ← str? j "pad"; let skip ← bool? j "skip"; let nl ← bool? j "nl"
+      let v ← parseV (← val? j "v")
+      pure (fmt, pad.toList, skip, nl, v)) with
+    | none => some (bad "man.doc: parse")
+    | some (fmt, pad, skip, nl, v) =>
+      match doc fmt pad skip nl v ((str? j "tok").map String.toList) with
+      | some r => some r
+      | none => some (bad "man.doc: fmt")
   | "man.tok" =>
     match (do
       let kind ← str? j "kind"; let s ← str? j "s"; let qk ← bool? j "qk"
